@@ -83,8 +83,12 @@ def make_ghost_transport(T: set[tuple[int, int]], nrc_of: Callable[[int, int], i
                     self.requested.append((self.session, want, False))
                     self.pending.append(bytes([0x7F, 0x10, nrc_of(self.session, want)]))
             elif data[0] == 0x11 and len(data) == 2:
-                self.session = 1
-                self.pending.append(bytes([0x51, data[1]]))
+                if getattr(nrc_of, "reset_refused", False) and self.session != 1:
+                    # an ECU that refuses the reset outside the default session
+                    self.pending.append(bytes([0x7F, 0x11, CNC]))
+                else:
+                    self.session = 1
+                    self.pending.append(bytes([0x51, data[1]]))
             elif data[0] == 0x3E:
                 self.pending.append(bytes([0x7E, 0x00]))
             else:
@@ -175,7 +179,9 @@ def run_scan(T: set[tuple[int, int]], depth: int, skip: set[int], thorough: bool
     """Drive the real SessionsScanner.main and evaluate the postcondition of the statement."""
     sessions_mod, ecu_mod, _ = _mods()
     nrc_of = {"sfns": lambda c, s: SFNS, "ias": lambda c, s: SFNSIAS if (c + s) % 2 else SFNS,
-              "cnc": lambda c, s: CNC if s % 2 else SFNS}[nrc]
+              "cnc": lambda c, s: CNC if s % 2 else SFNS}[nrc.split("+")[0]]
+    if nrc.endswith("+noreset"):
+        nrc_of.reset_refused = True  # type: ignore[attr-defined]
     nodes = {a for e in T for a in e} | {1}
     n_stacks = sum(len(nodes) ** d for d in range(depth + 1))
     budget = (127 * 2 + depth + 3) * n_stacks * (3 if reset else 1) + 100
@@ -374,6 +380,11 @@ def native_replay(unit: str, obligation: str, model: dict) -> tuple[bool, str]:
                          False, False))
     edge.append(({(1, 1), (2, 1), (3, 1), (1, 2), (2, 3), (3, 2)}, 3, {3}, False, "cnc", True,
                  True))
+    for depth in (1, 2):  # --reset against an ECU that refuses the reset outside the default session
+        edge.append(({(1, 1), (2, 1), (3, 1), (1, 2), (2, 3)}, depth, set(), False,
+                     "sfns+noreset", True, False))
+        edge.append(({(1, 1), (2, 1), (3, 1), (4, 1), (1, 2), (2, 3), (3, 4), (1, 4)}, depth, set(),
+                     True, "sfns+noreset", True, False))
     for c in edge + cases("quick", int(os.environ.get("VERIF_SEED", "0"))):
         try:
             run_scan(*c)
